@@ -98,6 +98,7 @@ def raw_x(it, t):
     nc = ctx.uf("cols_len", cols, INT)
     it.run.assume(nc(m["cols"]) >= 0)
     it.run.assume(z3.Implies(m["is_df"], z3.And(m["ndim"] == 2, m["d1"] == nc(m["cols"]))))
+    it.run.__dict__.setdefault("size_terms", []).extend([m["d0"], m["d1"]])
     return SOpaque("RawX", t, m)
 
 
@@ -503,6 +504,7 @@ def _make_nd(models, it, reg, ty, name, fresh):
         d0 = run.fresh("Int", name + "!d0") if fresh else z3.Int(name + "!d0")
         d1 = run.fresh("Int", name + "!d1") if fresh else z3.Int(name + "!d1")
         run.assume(z3.And(d0 >= 0, d1 >= 0))
+        run.__dict__.setdefault("size_terms", []).extend([d0, d1])
         srt = z3.ArraySort(INT, INT, REAL)
         arr = run.fresh(srt, name + "!data") if fresh else z3.Const(name + "!data", srt)
         return SNd((d0, d1), lambda idx, arr=arr: arr[b2i(z(idx[0])), b2i(z(idx[1]))], src=("fresh", None))
